@@ -32,14 +32,15 @@ def gen_claim(rng, t):
         elif k < 0.2:
             v = b""
         else:
-            v = rng.choice([b"abc", b"John Doe", b"123", b"aab", b"id-7", "é".encode(), b"x" * rng.randrange(1, 40)])
+            v = rng.choice([b"abc", b"John Doe", b"123", b"aab", b"id-7", "é".encode(), ("é" * 5).encode(), b"x" * rng.randrange(1, 40)])
         return {"t": "h", "hex": hx(v), "pf": rng.random() < 0.5}
     if t == "n":
         return {"t": "n", "v": str(rng.choice([0, 1, -1, 41, I64MIN, I64MAX, I64MIN + 1, I64MAX - 1, rng.randrange(-1000, 1000), rng.randrange(I64MIN, I64MAX)]))}
     if t == "s":
         return {"t": "s", "hex": "%064x" % rng.randrange(0, 2**250)}
     if t == "r":
-        return {"t": "r", "s": rng.choice(["id-1", "91742856-6eda-45fb-a709-d22ebb5ec8a5", "", "abc", "x" * 20])}
+        # identifiers are byte strings: some whose byte length and character count differ
+        return {"t": "r", "s": rng.choice(["id-1", "91742856-6eda-45fb-a709-d22ebb5ec8a5", "", "abc", "x" * 20, "é" * 8, "id-é", "日本語"])}
     return {"t": "e", "dst": rng.choice(["color", "", "size"]), "v": rng.randrange(0, 5), "total": rng.choice([5, 1, 256, 70000])}
 
 
